@@ -16,6 +16,8 @@ from ..absint import TOP
 from ..walk import (data_derives, data_terms, ret_alts, call_parts, call_arg, is_call_to, const_val, NOVAL, strip_views, unwrap_gamma, axis_uses,
                     norm_stmt, ctx_tree)
 from . import c20
+from .c01 import _division_terms
+from ..walk import mult_factors
 
 M = 'pb_bss.extraction.mask_module::'
 AXIS_PARAMS = {'source_axis', 'sensor_axis', 'axis', 'component_axis', 'frequency_axis'}
@@ -122,13 +124,12 @@ def check_forms(run, A):
         q = M + name
         fn = A.prog.func(q)
         g = A.graphs.get(fn)
-        divs = [e for e in g.events if e.kind == 'inplace' and e.term.op == 'iop' and e.term.args[0] == 'Div']
         ok = False
-        for e in divs:
-            x = eps_sum(e.term.args[2])
+        for dv in _division_terms(g):
+            x = eps_sum(dv.args[2])
             if x is not None:
                 base = sum_over_source(x)
-                ok = base is not None and strip_views(base) is strip_views(e.term.args[1])
+                ok = base is not None and strip_views(base) is strip_views(dv.args[1])
         run.check(ok, 'FORM', f'{name}: divided by its own sum over source_axis plus eps', fn.loc(), '', 'mask /= mask.sum(source_axis, keepdims=True) + eps not found', construct=f'FORM::{q}::normalisation')
     q = M + 'ideal_amplitude_mask'
     fn = A.prog.func(q)
@@ -151,20 +152,20 @@ def check_forms(run, A):
     g = A.graphs.get(fn)
     obs = [e.term for e in g.events if e.kind == 'call' and call_parts(e.term)[0] in ('numpy.sum', 'method:sum')]
     ok_obs = bool(obs) and is_source_sum(obs[0])
-    divs = [e for e in g.events if e.kind == 'inplace' and e.term.op == 'iop' and e.term.args[0] == 'Div']
-    muls = [e for e in g.events if e.kind == 'inplace' and e.term.op == 'iop' and e.term.args[0] == 'Mult']
-    ok_div = False
-    for e in divs:
-        d = eps_sum(e.term.args[2])
-        ok_div = d is not None and is_call_to(strip_views(d), 'numpy.abs') and (obs and call_arg(strip_views(d), 0) is obs[0]) and is_call_to(strip_views(e.term.args[1]), 'numpy.abs')
-    ok_cos = False
-    for e in muls:
-        c = strip_views(e.term.args[2])
-        if is_call_to(c, 'numpy.cos'):
-            th = strip_views(call_arg(c, 0))
-            if th.op == 'binop' and th.args[0] == 'Sub':
-                a, b = strip_views(th.args[1]), strip_views(th.args[2])
-                ok_cos = is_call_to(a, 'numpy.angle') and is_call_to(b, 'numpy.angle') and data_derives(call_arg(a, 0), 'signal') and obs and call_arg(b, 0) is obs[0]
+    # the returned value is a product (in place or not, either operand order) of the magnitude ratio and the cosine
+    ok_div = ok_cos = False
+    for r_ in ret_alts(g):
+        for f, _c in mult_factors(strip_views(r_)):
+            f = strip_views(f)
+            if f.op in ('binop', 'iop') and f.args[0] == 'Div':
+                d = eps_sum(f.args[2])
+                ok_div = d is not None and is_call_to(strip_views(d), 'numpy.abs') and bool(obs) and call_arg(strip_views(d), 0) is obs[0] and is_call_to(strip_views(f.args[1]), 'numpy.abs') \
+                    and data_derives(call_arg(strip_views(f.args[1]), 0), 'signal')
+            elif is_call_to(f, 'numpy.cos'):
+                th = strip_views(call_arg(f, 0))
+                if th.op == 'binop' and th.args[0] == 'Sub':
+                    a, b = strip_views(th.args[1]), strip_views(th.args[2])
+                    ok_cos = is_call_to(a, 'numpy.angle') and is_call_to(b, 'numpy.angle') and data_derives(call_arg(a, 0), 'signal') and bool(obs) and call_arg(b, 0) is obs[0]
     run.check(ok_obs and ok_div and ok_cos, 'FORM', 'phase_sensitive_mask: |s| / (|y| + eps) * cos(angle s - angle y), y = sum over source_axis', fn.loc(), '',
               f'observed signal over source_axis: {ok_obs}; magnitude ratio with eps: {ok_div}; cosine of (angle s - angle y): {bool(ok_cos)}', construct=f'FORM::{q}::form')
     q = M + 'ideal_complex_mask'
